@@ -92,3 +92,61 @@ pub fn sqrt_hard(k: usize) {
     for (_, x) in all { out.push_str(&format!("{:x}\n", x)); }
     print!("{}", out);
 }
+
+/// exact reference: the correctly rounded (posit rule) square root of a positive P32E2 pattern, by integer arithmetic only
+fn sqrt_ref(x: u32) -> u32 {
+    let (s, frac, fb) = decode(x);
+    let mut m: u128 = (1u128 << fb) + frac as u128;
+    let mut sc = s - fb as i32;
+    if sc & 1 != 0 { m <<= 1; sc -= 1; }
+    let mut er = if s >= 0 { s / 2 } else { -((-s + 1) / 2) };
+    let enc = |er: i32, q: u128| -> u32 {
+        let kr = er >> 2;
+        let ee = (er & 3) as u32;
+        let reglen = if kr >= 0 { kr as u32 + 2 } else { (-kr) as u32 + 1 };
+        let fbr = 31 - reglen - 2;
+        let regime: u32 = if kr >= 0 { ((1u32 << (kr as u32 + 1)) - 1) << 1 } else { 1 };
+        (regime << (31 - reglen)) | (ee << fbr) | (q as u32 & ((1u32 << fbr) - 1))
+    };
+    let kr = er >> 2;
+    let reglen = if kr >= 0 { kr as u32 + 2 } else { (-kr) as u32 + 1 };
+    let fbr = 31 - reglen - 2;
+    const G: u32 = 20;
+    let sh = sc - 2 * (er - fbr as i32) + 2 * G as i32;
+    let w = m << sh as u32;
+    let r = isqrt(w);
+    let exact = r * r == w;
+    let mut q = r >> G;
+    let guard = r & ((1u128 << G) - 1);
+    let half = 1u128 << (G - 1);
+    if guard > half || (guard == half && (!exact || (q & 1) == 1)) { q += 1; }
+    if q == (1u128 << (fbr + 1)) { er += 1; return enc(er, 0); }
+    enc(er, q)
+}
+
+/// `--sqrt-scan`: every positive P32E2 pattern whose `sqrt()` (the crate under test, this build profile) differs from the exact
+/// reference or panics — a SEARCH over all 2^31 - 1 inputs; the candidates are judged by the specification afterwards
+pub fn sqrt_scan(cap: usize) {
+    use softposit::P32E2;
+    std::panic::set_hook(Box::new(|_| {}));
+    let nthreads = std::thread::available_parallelism().map(|n| n.get()).unwrap_or(4).min(16);
+    let total: u64 = 1 << 31;
+    let mut handles = Vec::new();
+    for t in 0..nthreads as u64 {
+        let lo = 1 + t * total / nthreads as u64;
+        let hi = (1 + (t + 1) * total / nthreads as u64).min(total);
+        handles.push(std::thread::spawn(move || {
+            let mut bad: Vec<u32> = Vec::new();
+            for x in lo..hi {
+                let x = x as u32;
+                let got = std::panic::catch_unwind(|| P32E2::from_bits(x).sqrt().to_bits());
+                let ok = match got { Ok(v) => v == sqrt_ref(x), Err(_) => false };
+                if !ok && bad.len() < cap { bad.push(x); }
+            }
+            bad
+        }));
+    }
+    let mut out = String::new();
+    for h in handles { for x in h.join().unwrap() { out.push_str(&format!("{:x}\n", x)); } }
+    print!("{}", out);
+}
